@@ -58,12 +58,15 @@ FRESH = Fresh()
 class Root:
     """Abstract value: (param index, borrowed?) - the object itself or something borrowed from it."""
 
-    def __init__(self, param, part=False):
+    def __init__(self, param, part=False, holder=False):
         self.param = param
         self.part = part
+        # holder: a *fresh* container (list / dict / comprehension result) whose elements may be borrowed from
+        # the parameter; changing the holder itself writes nothing, reaching into it yields borrowed parts
+        self.holder = holder
 
     def __repr__(self):
-        return "Root(%s%s)" % (self.param, ".part" if self.part else "")
+        return "Root(%s%s%s)" % (self.param, ".part" if self.part else "", ".holder" if self.holder else "")
 
 
 class Summary:
@@ -107,6 +110,8 @@ class Analyzer(ast.NodeVisitor):
             b = self.val(e.value)
             self.scan(e.slice)
             if isinstance(b, Root):
+                if b.holder and isinstance(e.slice, ast.Slice):
+                    return Root(b.param, True, True)
                 return Root(b.param, True)
             return FRESH
         if isinstance(e, ast.Call):
@@ -127,8 +132,7 @@ class Analyzer(ast.NodeVisitor):
                     return r
             return FRESH
         if isinstance(e, (ast.ListComp, ast.SetComp, ast.GeneratorExp, ast.DictComp)):
-            self.comp(e)
-            return FRESH
+            return self.comp(e)
         if isinstance(e, ast.Lambda):
             return FRESH
         if isinstance(e, ast.Starred):
@@ -141,13 +145,13 @@ class Analyzer(ast.NodeVisitor):
             rs = [self.val(x) for x in e.elts]
             for r in rs:
                 if isinstance(r, Root):
-                    return Root(r.param, True)  # a container holding borrowed parts
+                    return Root(r.param, True, True)  # a fresh container holding borrowed parts
             return FRESH
         if isinstance(e, ast.Dict):
             rs = [self.val(x) for x in e.values if x is not None] + [self.val(x) for x in e.keys if x is not None]
             for r in rs:
                 if isinstance(r, Root):
-                    return Root(r.param, True)
+                    return Root(r.param, True, True)
             return FRESH
         for ch in ast.iter_child_nodes(e):
             if isinstance(ch, ast.expr):
@@ -166,15 +170,18 @@ class Analyzer(ast.NodeVisitor):
         saved = dict(self.env)
         for g in e.generators:
             it = self.val(g.iter)
-            self.bind(g.target, Root(it.param, True) if isinstance(it, Root) else FRESH)
+            self.bind(g.target, Root(it.param, True) if isinstance(it, Root) else FRESH)  # elements: borrowed, not holders
             for c in g.ifs:
                 self.val(c)
         if isinstance(e, ast.DictComp):
             self.val(e.key)
-            self.val(e.value)
+            r = self.val(e.value)
         else:
-            self.val(e.elt)
+            r = self.val(e.elt)
         self.env = saved
+        if isinstance(r, Root) and (r.part or r.holder):
+            return Root(r.param, True, True)  # a fresh container of borrowed elements
+        return FRESH
 
     def write(self, root, node, why):
         self.sum.writes.setdefault(root.param, []).append((getattr(node, "lineno", 0), why))
@@ -186,6 +193,12 @@ class Analyzer(ast.NodeVisitor):
         if isinstance(f, ast.Attribute):
             recv = self.val(f.value)
             name = f.attr
+            if isinstance(recv, Root) and recv.holder:
+                if name in ("copy", "items", "values", "get", "pop", "popitem", "setdefault", "__getitem__"):
+                    return Root(recv.param, True, name == "copy")
+                if name in MUTATING_METHODS:
+                    return FRESH  # the holder itself is fresh: no write on the parameter
+                return FRESH
             if isinstance(recv, Root):
                 if name in MUTATING_METHODS and recv.part:
                     self.write(recv, e, "W2 %s() on a part of parameter `%s`" % (name, self.params[recv.param]))
@@ -203,9 +216,9 @@ class Analyzer(ast.NodeVisitor):
                 # unknown method on the parameter itself: a stat accessor (H.nodes.degree) or similar
                 return FRESH
             # module function through a module alias: xgi.foo(H) / nx.foo(G)
-            callee = self.summaries.get(name)
-            if callee is not None and isinstance(f.value, ast.Name) and f.value.id in ("xgi",):
-                self.apply_summary(callee, args, kws, e)
+            if isinstance(f.value, ast.Name) and f.value.id in ("xgi",):
+                for callee in self.callees(name):
+                    self.apply_summary(callee, args, kws, e)
             return FRESH
         if isinstance(f, ast.Name):
             name = f.id
@@ -213,21 +226,28 @@ class Analyzer(ast.NodeVisitor):
                 self.write(args[0], e, "W5 next() on the id counter of parameter `%s`" % self.params[args[0].param])
                 return FRESH
             if name in ("iter", "reversed", "sorted", "list", "tuple", "set", "frozenset", "dict", "zip", "enumerate", "map", "filter"):
-                if name in ("iter", "reversed", "zip", "enumerate", "map", "filter") or name in ("list", "tuple", "dict"):
+                if name in ("iter", "reversed", "zip", "enumerate", "map", "filter", "list", "tuple", "dict", "sorted"):
                     for a in args:
                         if isinstance(a, Root):
-                            return Root(a.param, True)  # elements (possibly borrowed sets) are shared
+                            return Root(a.param, True, True)  # fresh container / iterator; elements (possibly borrowed sets) are shared
                 return FRESH
             if name in ("deepcopy", "copy", "len", "str", "int", "float", "sum", "min", "max", "any", "all", "isinstance", "type", "hash", "id", "repr", "print", "range", "abs", "round", "getattr", "hasattr", "issubclass", "callable"):
                 if name == "getattr" and args and isinstance(args[0], Root):
                     return FRESH
                 return FRESH
-            callee = self.summaries.get(name)
-            if callee is not None:
-                return self.apply_summary(callee, args, kws, e)
-            return FRESH
+            res = FRESH
+            for callee in self.callees(name):
+                r = self.apply_summary(callee, args, kws, e)
+                if isinstance(r, Root):
+                    res = r
+            return res
         self.val(f)
         return FRESH
+
+    def callees(self, name):
+        """Summaries of every module-level function called `name` (same-named functions of different modules are
+        all applied: conservative, no import resolution needed)."""
+        return [s for q, s in self.summaries.items() if q.rsplit("::", 1)[-1] == name]
 
     def apply_summary(self, callee, args, kws, node):
         res = FRESH
@@ -258,7 +278,7 @@ class Analyzer(ast.NodeVisitor):
         elif isinstance(target, ast.Subscript):
             b = self.val(target.value)
             self.scan(target.slice)
-            if isinstance(b, Root):
+            if isinstance(b, Root) and not b.holder:
                 self.write(b, target, "W1 item store into parameter `%s`" % self.params[b.param])
         elif isinstance(target, ast.Attribute):
             b = self.val(target.value)
@@ -291,7 +311,7 @@ class Analyzer(ast.NodeVisitor):
             v = self.val(st.value)
             if isinstance(st.target, ast.Name):
                 cur = self.env.get(st.target.id, FRESH)
-                if isinstance(cur, Root) and cur.part and isinstance(st.op, (ast.BitOr, ast.BitAnd, ast.Sub, ast.BitXor, ast.Add)):
+                if isinstance(cur, Root) and cur.part and not cur.holder and isinstance(st.op, (ast.BitOr, ast.BitAnd, ast.Sub, ast.BitXor, ast.Add)):
                     self.write(cur, st, "W1 augmented assignment on a part of parameter `%s`" % self.params[cur.param])
             else:
                 self.bind(st.target, v)
@@ -299,7 +319,7 @@ class Analyzer(ast.NodeVisitor):
             for t in st.targets:
                 if isinstance(t, ast.Subscript):
                     b = self.val(t.value)
-                    if isinstance(b, Root):
+                    if isinstance(b, Root) and not b.holder:
                         self.write(b, st, "W1 del on parameter `%s`" % self.params[b.param])
         elif isinstance(st, ast.Expr):
             self.val(st.value)
@@ -406,7 +426,7 @@ def package_modules():
 
 
 def all_functions():
-    """bare name -> (rel, FunctionDef) for module-level functions; class methods separately."""
+    """"rel::name" -> (rel, FunctionDef) for module-level functions; class methods separately."""
     funcs, methods = {}, {}
     for rel in package_modules():
         try:
@@ -415,12 +435,28 @@ def all_functions():
             continue
         for n in m.tree.body:
             if isinstance(n, ast.FunctionDef):
-                funcs.setdefault(n.name, (rel, n))
+                funcs["%s::%s" % (rel, n.name)] = (rel, n)
             elif isinstance(n, ast.ClassDef):
                 for b in n.body:
                     if isinstance(b, ast.FunctionDef):
                         methods["%s.%s" % (n.name, b.name)] = (rel, b, n.name)
     return funcs, methods
+
+
+def public_functions():
+    """"rel::name" of every module-level function exported through its own module's __all__."""
+    out = []
+    for rel in package_modules():
+        m = extract.module(rel)
+        defs = {n.name for n in m.tree.body if isinstance(n, ast.FunctionDef)}
+        for n in m.tree.body:
+            if isinstance(n, ast.Assign) and any(isinstance(t, ast.Name) and t.id == "__all__" for t in n.targets):
+                try:
+                    names = ast.literal_eval(n.value)
+                except Exception:
+                    continue
+                out.extend("%s::%s" % (rel, x) for x in names if x in defs)
+    return sorted(set(out))
 
 
 def public_names():
@@ -449,12 +485,12 @@ def summarize_all(fold_in_place=False):
     sums = {}
     for name, (rel, fn) in funcs.items():
         a = fn.args
-        sums[name] = Summary("%s::%s" % (rel, name), [x.arg for x in a.posonlyargs + a.args] + [x.arg for x in a.kwonlyargs])
+        sums[name] = Summary(name, [x.arg for x in a.posonlyargs + a.args] + [x.arg for x in a.kwonlyargs])
     for _ in range(6):
         changed = False
         for name, (rel, fn) in funcs.items():
             fold = {p: False for p in flag_params(fn)} if fold_in_place else {}
-            s = Analyzer(fn, "%s::%s" % (rel, name), sums, fold).run()
+            s = Analyzer(fn, name, sums, fold).run()
             old = sums[name]
             if set(s.writes) != set(old.writes) or s.returns != old.returns:
                 changed = True
